@@ -122,8 +122,11 @@ def explore(machine, acc, depth=None, max_states=200000, tag="", wit_extra=None,
 
 def run_witness(machine, w):
     try:
-        impl, model = replay(machine, w["init"], [deep_tuple(o) for o in w["history"]])
-        machine.observe(impl, model, tuple(w["history"]))
+        hist = [deep_tuple(o) for o in w["history"]]
+        impl, model = replay(machine, w["init"], hist[:-1])
+        if hist:
+            impl, model = machine.step(impl, model, hist[-1])  # the last step with the full oracle
+        machine.observe(impl, model, tuple(hist))
     except core.Violation as v:
         return v
     return None
